@@ -292,6 +292,34 @@ ADDED4 = {
 }
 for _k, _v in ADDED4.items():
     ADDED[_k] = ADDED.get(_k, "") + _v
+# fifth round (DESIGN.md 11.6, fifth table) and the findings that followed the sub-agents' side remarks
+ADDED5 = {
+    "C01": " A family with every configurable application and save_agent_actions on (every configure / command action once before each reset; the "
+           "session directory redirected to scratch).",
+    "C03": " A scenario with both seeding options of the game block (configured seed and generate_seed_value).",
+    "C04": " The action mask handed out after every step and reset is part of the compared trajectory.",
+    "C05": " Clause DocumentedPowerRule (the power conjunct of the documented preconditions read from the node itself, no validator); every path "
+           "of the live request tree is also submitted bare; directed power requests at every power state with asymmetric durations; services asked "
+           "to be uninstalled through the application route.",
+    "C08": " Termination under faults: nodes powered off before any traffic, cold caches, every remaining host sends to every other host.",
+    "C10": " The fresh value of the page / database-unreachable penalties is computed from their docstrings (no twin of the implementation's "
+           "class); variant with an uninstalled browser.",
+    "C11": " Clauses ExecutedIsDeclaredEntry (the request executed for action number i is formed from the entry declared under key i; maps "
+           "written with descending keys) and DocumentedPowerRule.",
+    "C12": " ACL requests among the other requests; while the node is not on every request name of its own table is sent.",
+    "C13": " The restart duration of a declared service comes from the scenario's defaults block (both locations, 0 included).",
+    "C14": " Files of unknown type (size 0) in the application variant's folder.",
+    "C16": " Service stops hit the session manager and the user manager too; directed stop / end-of-session / start sequences.",
+    "C17": " Clause RefusedBackupKeepsCopy (a backup that reports failure has stored nothing).",
+    "C18": " 'Taken by the far end' is also observed independently of the far end's answer (a switch that was handed the frame has taken it).",
+    "C19": " Clauses SwitchedOffPayloadNeverUsed and ZeroProbabilityStageNeverActs; TAP001 variants with the payload switches off, TAP003 "
+           "variants with one stage at probability 0, probability tables at the loader's tolerance.",
+    "C20": " Probes are also loaded through the environment and inventoried after reset (declared operating states, router rules at the built-in "
+           "positions); own options next to the defaults block, all-zero defaults, folder durations of declared folders, firewalls with partial ACL "
+           "blocks; every small shipped scenario also loaded with node and link lists reversed.",
+}
+for _k, _v in ADDED5.items():
+    ADDED[_k] = ADDED.get(_k, "") + _v
 for _k, _v in ADDED.items():
     if _k in CHECKS:
         CHECKS[_k]["text"] = CHECKS[_k]["text"] + _v
